@@ -40,3 +40,23 @@ GROUP = dict(
     vacuity=lambda r: ("no profile was recorded" if r["stats"].get("profiles", 0) == 0 else
                        "more than half of the generated networks were rejected" if r["stats"].get("skipped", 0) * 2 > r["n_cases"] else None),
 )
+
+ENGINE = dict(name="SpeedProfile", path="specs/SpeedProfile.tla", serves_properties=["C02", "C13"],
+              kind_free_text="TLA+ spec (Level A Canon/Safe/Exact/Canonical; Level B transcription of insert_speed/add_speeds), "
+                             "TLC exhaustive on bounded layouts, every configuration replayed into real PathTpc/TrainSimBuilder/"
+                             "SpeedLimitTrainSim, recorded profiles validated by TLC (SpeedProfileTrace.tla)")
+_NOTE = ("Trusted: TLC, the JSON projection of PathTpc (serde), the harness materialisation of the abstract layout as a "
+         "Network (validated by altrios itself). Bounded: exhaustive only up to the lattice bounds of the MC configs; "
+         "random metre-scale layouts beyond. One car type per train.")
+_TECH = "TLA+ spec + TLC model checking + spec->impl replay + TLC trace validation"
+MANIFEST = {
+    "C02": dict(engine="SpeedProfile", design_ref="3 (C02 / C13)", technique=_TECH,
+                text="TLC checks Safe on every reachable state of the bounded SpeedProfile model (all sorted restriction lists per "
+                     "link, head/tail sets, gates, 1-3 links) and re-evaluates Safe on the profile the real code built for every "
+                     "one of those configurations through five construction paths, plus seeded random layouts.",
+                note=_NOTE),
+    "C13": dict(engine="SpeedProfile", design_ref="3 (C02 / C13)", technique=_TECH,
+                text="Same runs as C02; TLC evaluates Exact (pointwise equality with the canonical minimum at every breakpoint), "
+                     "Canonical and SameByEveryPath on every recorded profile. Found and led to the repair of F-C13-1.",
+                note=_NOTE),
+}
